@@ -53,3 +53,4 @@ Print Assumptions C17_wait_bounded_partial.
 Print Assumptions C17_prompt.
 Print Assumptions C17_timeout_not_early.
 Print Assumptions C17_clean_exit_needs_all.
+Print Assumptions C17_wait_state_exists.
